@@ -130,6 +130,25 @@ def parse_sanitizer_logs(workdir):
     return ours, foreign
 
 
+def anchor_coverage(prop, repo, seen):
+    """Executed / executable statements of the property's anchored Python files (from properties.jsonl)."""
+    from vrt import linecov
+    files = []
+    with open(os.path.join(VERIF, "properties.jsonl")) as f:
+        for line in f:
+            p = json.loads(line)
+            if p["id"] == prop:
+                files = [x for x in p["anchors"]["files"] if x.endswith(".py")]
+    out = {}
+    for rel in files:
+        key = rel[len("mlinsights/"):] if rel.startswith("mlinsights/") else rel
+        exe = linecov.executable_lines(os.path.join(repo, rel))
+        got = set(seen.get(key, ())) & exe
+        out[rel] = {"executable_statements": len(exe), "executed": len(got),
+                    "missed": linecov.ranges(exe - got)[:40]}
+    return out
+
+
 def main(argv=None):
     ap = argparse.ArgumentParser()
     ap.add_argument("prop")
@@ -209,6 +228,7 @@ def main(argv=None):
     crashes = []
     ncases = 0
     origin_ok = 0
+    linecov_all = {}
     for info in infos:
         started = None
         for r in info["recs"]:
@@ -218,6 +238,9 @@ def main(argv=None):
                 started = r["start"]
             elif "origin_ok" in r:
                 origin_ok += 1
+            elif "linecov" in r:
+                for fn, lines in r["linecov"].items():
+                    linecov_all.setdefault(fn, set()).update(lines)
             elif "case" in r:
                 started = None
                 ncases += 1
@@ -378,6 +401,10 @@ def main(argv=None):
                 cov.update(jsonable(mod.summarize(extras, counters)))
             except Exception as e:  # never let a summary break the verdict
                 cov["summary_error"] = repr(e)
+        try:
+            cov["anchor_line_coverage"] = anchor_coverage(prop, repo, linecov_all)
+        except Exception as e:
+            cov["anchor_line_coverage"] = {"error": repr(e)}
         if "asan" in flavours:
             cov["sanitizer"] = {"reports_with_mlinsights_frame": len(san_reports),
                                 "foreign_reports": san_foreign,
